@@ -1,6 +1,44 @@
-(* Ops/C07.v — protocol entry points for property C07 (stub until the model is built). *)
-From Coq Require Import List String.
-From PrefVerif Require Import Lib.Val.
+(* Ops/C07.v — protocol entry points for property C07 (pairwise tables, Condorcet, order_to_pwg).
+   instance payload: (alts_name num_alternatives num_voters mult dtype)
+     alts_name = ((alt name) ...) with name a code-point list; mult = ((order k) ...), order = ((alt ...) ...);
+     dtype: 0 soc, 1 soi, 2 toc, 3 toi, 4 cat, 5 wmd, other = any other string. *)
+From Coq Require Import List ZArith NArith String.
+From PrefVerif Require Import Lib.Val Model.Pairwise.
 Import ListNotations.
+Open Scope string_scope.
 
-Definition ops : optable := [].
+Definition d_dtype (v : val) : dtype :=
+  match dnat v with
+  | 0 => SOC | 1 => SOI | 2 => TOC | 3 => TOI | 4 => CAT | 5 => WMD | _ => DTOther
+  end.
+Definition d_order (v : val) : order := dlist (dlist dN) v.
+Definition d_inst (v : val) : inst :=
+  mkInst (dlist (dpair dN (dlist dN)) (dnth 0 v)) (dN (dnth 1 v)) (dN (dnth 2 v))
+         (dlist (dpair d_order dN) (dnth 3 v)) (d_dtype (dnth 4 v)).
+
+Definition e_row (r : row) : val := elist (epair eN eZ) r.
+Definition e_table (t : table) : val := elist (epair eN e_row) t.
+Definition e_line (l : Z * N * N) : val := VL [eZ (fst (fst l)); eN (snd (fst l)); eN (snd l)].
+Definition e_pwg (g : pwg) : val :=
+  VL [eN (pwg_num_alternatives g); elist (epair eN (elist eN)) (pwg_alt_lines g);
+      VL [eN (pwg_num_voters g); eZ (pwg_sum g); eN (pwg_num_unique g)];
+      elist e_line (pwg_lines g)].
+
+Definition op_pairwise (v : val) : val := eresult e_table (pairwise_scores (d_inst v)).
+Definition op_copeland (v : val) : val := eresult e_table (copeland_scores (d_inst v)).
+(* payload: (instance weak) *)
+Definition op_condorcet (v : val) : val :=
+  eresult ebool (has_condorcet (d_inst (dnth 0 v)) (dbool (dnth 1 v))).
+Definition op_borda (v : val) : val := eresult e_row (borda_scores (d_inst v)).
+Definition op_pwg (v : val) : val := eresult e_pwg (order_to_pwg (d_inst v)).
+
+(* all five observables of one instance in one answer: (pairwise copeland condorcet condorcet_weak borda pwg) *)
+Definition op_all (v : val) : val :=
+  let i := d_inst v in
+  VL [eresult e_table (pairwise_scores i); eresult e_table (copeland_scores i);
+      eresult ebool (has_condorcet i false); eresult ebool (has_condorcet i true);
+      eresult e_row (borda_scores i); eresult e_pwg (order_to_pwg i)].
+
+Definition ops : optable :=
+  [ ("c07.all", op_all); ("c07.pairwise", op_pairwise); ("c07.copeland", op_copeland); ("c07.condorcet", op_condorcet);
+    ("c07.borda", op_borda); ("c07.pwg", op_pwg) ].
